@@ -1,17 +1,17 @@
 package main
 
 import (
-	"sync/atomic"
+	"encoding/json"
 	"fmt"
 	"os"
 	"path/filepath"
 	"sort"
 	"strings"
+	"sync/atomic"
 	"syscall"
+	"time"
 	"unsafe"
 
-	"github.com/daeuniverse/dae/config"
-	"github.com/daeuniverse/dae/pkg/config_parser"
 	"github.com/daeuniverse/dae/verifx/vlib"
 )
 
@@ -173,9 +173,7 @@ func runIncCase(root string, c *incCase, inotifyOK *bool) []incOutcome {
 	}
 	entry := strings.ReplaceAll(c.entry, "%R", root)
 	if c.chdir != "" {
-		old, _ := os.Getwd()
-		os.Chdir(filepath.Join(root, c.chdir))
-		defer os.Chdir(old)
+		// the child changes directory for this case
 	} else if !filepath.IsAbs(entry) {
 		entry = filepath.Join(root, entry)
 	}
@@ -215,18 +213,41 @@ func runIncCase(root string, c *incCase, inotifyOK *bool) []incOutcome {
 			w.opened() // drop the events caused by writing the tree
 		}
 	}
-	var secs []*config_parser.Section
-	var entries []string
-	var err error
-	if p, msg := vlib.Try(func() { secs, entries, err = config.NewMerger(entry).Merge() }); p {
-		viol("panic site="+vlib.PanicSite(msg), map[string]any{"case": c.label, "panic": msg})
+	// Merge runs in a child process (stream worker, kind "merge") while this process watches the tree:
+	// a merge that does not terminate (an unrecognised include cycle recurses for ever, re-reading the files,
+	// until stack or memory is exhausted) is recognised deterministically — some file has been opened more
+	// than maxOpensPerFile times, which no terminating merge of these trees can do — and the child is killed.
+	chdir := ""
+	if c.chdir != "" {
+		chdir = filepath.Join(root, c.chdir)
+	}
+	var opened map[string]bool
+	mres := mergeInChild(entry, chdir, w, *inotifyOK)
+	opened = mres.opened
+	switch {
+	case mres.runaway != "":
+		viol("include cycle not rejected: merge does not terminate", map[string]any{"case": c.label, "criterion": mres.runaway, "expected": c.expect})
+		return out
+	case mres.stalled:
+		guardStalls.Add(1)
+		return out
+	case mres.crashed:
+		viol("include: merge killed the process site="+vlib.PanicSite(mres.tail), map[string]any{"case": c.label, "stderr_tail": tailOf(mres.tail)})
+		return out
+	case mres.resp.Panic != "":
+		viol("panic site="+vlib.PanicSite(mres.resp.Panic), map[string]any{"case": c.label, "panic": mres.resp.Panic})
 		return out
 	}
-	_ = entries
+	var err error
+	if mres.resp.Err != "" {
+		err = fmt.Errorf("%s", mres.resp.Err)
+		if mres.resp.Err == "<empty error message>" {
+			err = fmt.Errorf("")
+		}
+	}
 	if w != nil && *inotifyOK {
-		op := w.opened()
 		var bad []string
-		for p := range op {
+		for p := range opened {
 			if forbidden[p] {
 				r, _ := filepath.Rel(root, p)
 				bad = append(bad, r)
@@ -298,14 +319,12 @@ func runIncCase(root string, c *incCase, inotifyOK *bool) []incOutcome {
 			want["node"] = append(want["node"], &RItem{P: &RParam{Val: tag + ".3"}})
 		}
 	}
-	got := map[string]string{}
-	for _, s := range secs {
-		if _, dup := got[s.Name]; dup {
-			viol("include: merged result has two sections of one name", c.label)
-		}
-		var b strings.Builder
-		canonSection(&b, fromImplSection(s))
-		got[s.Name] = b.String()
+	got := mres.resp.Sections
+	if got == nil {
+		got = map[string]string{}
+	}
+	if mres.resp.DupSection {
+		viol("include: merged result has two sections of one name", c.label)
 	}
 	var diffs []string
 	for name, items := range want {
@@ -326,6 +345,114 @@ func runIncCase(root string, c *incCase, inotifyOK *bool) []incOutcome {
 			map[string]any{"case": c.label, "expected_merge_order": c.order, "diff": diffs})
 	}
 	return out
+}
+
+// ---- the merge child and its guard ----
+
+// maxOpensPerFile: in these trees a file is named by at most 6 spellings (plus the entry spelling); a merger that
+// terminates reads a file at most once per spelling — far below this bound. Exceeding it is the
+// deterministic criterion for "does not terminate"; the wall-clock guard below only prevents a hang of the
+// check itself and never produces a violation.
+const maxOpensPerFile = 64
+
+var guardStalls atomic.Int64
+
+var spelledCases int
+
+type mergeResult struct {
+	resp    *sresp
+	opened  map[string]bool
+	runaway string // non-empty: the criterion that fired
+	crashed bool
+	stalled bool
+	tail    string
+}
+
+var mergeChild *sworker
+
+func stopMergeChild() {
+	if mergeChild != nil {
+		mergeChild.stop()
+		mergeChild = nil
+	}
+}
+
+func mergeInChild(entry, chdir string, w *inoWatch, inotifyOK bool) mergeResult {
+	res := mergeResult{opened: map[string]bool{}}
+	if mergeChild == nil {
+		var err error
+		if mergeChild, err = startWorker(); err != nil {
+			fmt.Fprintln(os.Stderr, "C17: cannot start the merge child:", err)
+			os.Exit(2)
+		}
+	}
+	ch := mergeChild
+	b, _ := json.Marshal(&sreq{ID: 1, Kind: "merge", Text: entry, Chdir: chdir})
+	_, werr := ch.in.Write(append(b, '\n'))
+	type rd struct {
+		line []byte
+		err  error
+	}
+	done := make(chan rd, 1)
+	go func() {
+		line, err := ch.out.ReadBytes('\n')
+		done <- rd{line, err}
+	}()
+	counts := map[string]int{}
+	poll := func() string {
+		if w == nil || !inotifyOK {
+			return ""
+		}
+		for p := range w.opened() {
+			res.opened[p] = true
+			counts[p]++ // one poll that saw an open = at least one more open(2) of that file
+			if counts[p] > maxOpensPerFile {
+				return fmt.Sprintf("%s was opened more than %d times during one Merge()", filepath.Base(p), maxOpensPerFile)
+			}
+		}
+		return ""
+	}
+	start := time.Now()
+	tick := time.NewTicker(500 * time.Microsecond)
+	defer tick.Stop()
+	var got rd
+loop:
+	for {
+		select {
+		case got = <-done:
+			poll()
+			break loop
+		case <-tick.C:
+			if why := poll(); why != "" {
+				ch.cmd.Process.Kill()
+				<-done
+				ch.in.Close()
+				ch.cmd.Wait()
+				mergeChild = nil
+				res.runaway = why
+				return res
+			}
+			if time.Since(start) > 10*time.Minute { // hang guard of the check itself; classifies nothing
+				ch.cmd.Process.Kill()
+				<-done
+				ch.in.Close()
+				ch.cmd.Wait()
+				mergeChild = nil
+				res.stalled = true
+				return res
+			}
+		}
+	}
+	var resp sresp
+	if werr == nil && got.err == nil && json.Unmarshal(got.line, &resp) == nil {
+		res.resp = &resp
+		return res
+	}
+	ch.in.Close()
+	ch.cmd.Wait()
+	res.crashed, res.tail = true, ch.stderr.String()
+	mergeChild = nil
+	return res
 }
 
 // reference expansion of a graph on named files: including file first, then each included file in listed order;
@@ -370,7 +497,7 @@ func orderedSubsets(names []string) [][]string {
 	return out
 }
 
-func buildIncCases(root string) (cases []*incCase, nGraphs int) {
+func buildIncCases(root string, thorough bool) (cases []*incCase, nGraphs int) {
 
 	// --- every ordered include graph on three files a,b,c (entry a) ---
 	names := []string{"a", "b", "c"}
@@ -418,6 +545,116 @@ func buildIncCases(root string) (cases []*incCase, nGraphs int) {
 		}
 	}
 	nGraphs = len(cases)
+
+	// --- path SPELLING as a dimension of the graphs ---
+	// Each edge x->y names y in one of six ways; the cycle / repeated-inclusion verdict must not depend on it.
+	spell := func(y string, k int) string {
+		switch k {
+		case 0:
+			return y + ".dae"
+		case 1:
+			return "./" + y + ".dae"
+		case 2:
+			return "'%R/conf/" + y + ".dae'"
+		case 3:
+			return "'%R/conf/./" + y + ".dae'"
+		case 4:
+			return "'%R/conf//" + y + ".dae'"
+		default:
+			return "'%R/conf/sub/../" + y + ".dae'"
+		}
+	}
+	spellName := []string{"rel", "dot-rel", "abs", "abs/./", "abs//", "abs/sub/../"}
+	const nSpell = 6
+	type edge struct{ from, to string }
+	spelledCase := func(shape string, edges []edge, ks []int) *incCase {
+		inc := map[string][]string{}
+		specs := map[string][]string{}
+		var lab []string
+		for i, e := range edges {
+			inc[e.from] = append(inc[e.from], e.to)
+			specs[e.from] = append(specs[e.from], spell(e.to, ks[i]))
+			lab = append(lab, e.from+"->"+e.to+"["+spellName[ks[i]]+"]")
+		}
+		c := &incCase{entry: "conf/a.dae"}
+		for _, n := range names {
+			c.files = append(c.files, incFile{rel: "conf/" + n + ".dae", tag: tagOf[n], includes: specs[n], incLast: n == "b"})
+		}
+		c.files = append(c.files, incFile{rel: "conf/sub", isDir: true})
+		c.files = append(c.files, decoys...)
+		order, cyclic := refExpand(inc, "a")
+		if cyclic {
+			c.expect = "err"
+			c.label = "spelling cyclic " + shape + ": " + strings.Join(lab, " ")
+		} else {
+			c.expect = "ok"
+			c.label = "spelling acyclic " + shape + ": " + strings.Join(lab, " ")
+			for _, n := range order {
+				c.order = append(c.order, tagOf[n])
+			}
+		}
+		return c
+	}
+	// (a) the full per-edge product on the canonical cyclic and repeated-inclusion shapes
+	shapes := []struct {
+		name  string
+		edges []edge
+	}{
+		{"self-loop", []edge{{"a", "a"}}},
+		{"2-cycle", []edge{{"a", "b"}, {"b", "a"}}},
+		{"3-cycle", []edge{{"a", "b"}, {"b", "c"}, {"c", "a"}}},
+		{"cycle-off-entry", []edge{{"a", "b"}, {"b", "c"}, {"c", "b"}}},
+		{"self-loop-off-entry", []edge{{"a", "b"}, {"b", "b"}}},
+		{"diamond", []edge{{"a", "b"}, {"a", "c"}, {"b", "c"}}},
+		{"diamond-2", []edge{{"a", "b"}, {"a", "c"}, {"c", "b"}}},
+		{"listed-twice", []edge{{"a", "b"}, {"a", "b"}}},
+		{"chain", []edge{{"a", "b"}, {"b", "c"}}},
+	}
+	nSpelled := 0
+	for _, sh := range shapes {
+		total := 1
+		for range sh.edges {
+			total *= nSpell
+		}
+		for code := 0; code < total; code++ {
+			ks := make([]int, len(sh.edges))
+			x := code
+			for i := range ks {
+				ks[i] = x % nSpell
+				x /= nSpell
+			}
+			cases = append(cases, spelledCase(sh.name, sh.edges, ks))
+			nSpelled++
+		}
+	}
+	// (b) thorough: every one of the 4096 graphs again, all edges in one spelling, for each non-plain spelling
+	if thorough {
+		for k := 1; k < nSpell; k++ {
+			for _, la := range lists {
+				for _, lb := range lists {
+					for _, lc := range lists {
+						var edges []edge
+						for _, t := range la {
+							edges = append(edges, edge{"a", t})
+						}
+						for _, t := range lb {
+							edges = append(edges, edge{"b", t})
+						}
+						for _, t := range lc {
+							edges = append(edges, edge{"c", t})
+						}
+						ks := make([]int, len(edges))
+						for i := range ks {
+							ks[i] = k
+						}
+						cases = append(cases, spelledCase("graph", edges, ks))
+						nSpelled++
+					}
+				}
+			}
+		}
+	}
+	spelledCases = nSpelled
 
 	// --- path spelling / file kind / permission matrix ---
 	base := func(aIncludes ...string) []incFile {
@@ -552,17 +789,19 @@ func buildIncCases(root string) (cases []*incCase, nGraphs int) {
 }
 
 // legIncludeShard: the cases whose index falls into this shard, on a private scratch tree.
-func legIncludeShard(c *shardCtx) {
+func legIncludeShard(c *shardCtx, thorough bool) {
 	if os.Getenv("VERIF_WORKDIR") == "" {
 		fmt.Fprintln(os.Stderr, "C17: VERIF_WORKDIR is not set")
 		os.Exit(2)
 	}
 	root := filepath.Join(os.Getenv("VERIF_WORKDIR"), fmt.Sprintf("c17-include-tree-%d", c.shard))
 	defer os.RemoveAll(root)
-	cases, nGraphs := buildIncCases(root)
+	defer stopMergeChild()
+	cases, nGraphs := buildIncCases(root, thorough)
 	c.res.Base = int64(len(cases))
 	c.res.Extra["graph_cases"] = int64(nGraphs)
-	c.res.Extra["matrix_cases"] = int64(len(cases) - nGraphs)
+	c.res.Extra["spelled_graph_cases"] = int64(spelledCases)
+	c.res.Extra["matrix_cases"] = int64(len(cases) - nGraphs - spelledCases)
 	inotifyOK := true
 	for i, cs := range cases {
 		if i%c.of != c.shard || c.over() {
@@ -596,6 +835,12 @@ func legIncludeShard(c *shardCtx) {
 	}
 	if !inotifyOK {
 		c.res.Extra["inotify_unavailable"] = 1
+	}
+	if n := guardStalls.Load(); n > 0 {
+		c.res.Extra["merge_guard_stalls"] = n
+	}
+	if n := repeatedRejected.Load(); n > 0 {
+		c.res.Extra["repeated_inclusion_rejected"] = n
 	}
 }
 
